@@ -1,5 +1,6 @@
 import SluProofs.Lemmas.LUInv
 import SluProofs.Lemmas.CxRat
+import SluProofs.Lemmas.LUSchedule
 /-
 C02 — Factors reproduce the permuted matrix; pivoting bounds hold.
 
@@ -199,6 +200,74 @@ theorem pivot_reuse_abandoned (j : Nat) (cands : List (Nat × K)) (u : Rat) (use
 
 end Slu.LU
 
+/-! ### Schedule independence -/
+namespace Slu.LU
+open Slu
+
+variable {K : Type} [Field K] [Mag K Rat]
+
+/-- **C02 (elimination order).** In a state satisfying the invariant, eliminating column `j` by the
+previous columns in ANY order `σ` that is a permutation of `prev st j` respecting the dependencies
+(`DepRespecting`: whenever column `a` precedes column `b` in natural order and `L_a(piv b) ≠ 0`,
+`a` precedes `b` in `σ`) gives
+* the same eliminated column,
+* the same multiplier for every previous column (`zip` pairs each column with its multiplier),
+* the same pivot candidates, and
+* the same new state (pivot decision, new L column, new U column — `stepSched` assembles the U
+  column by pivot row) as `step`. -/
+theorem luFactor_schedule_independent (P : Params K Rat) (st : St K) (j : Nat) (h : Inv P st j)
+    (σ : List (Nat × Vec K)) (hp : σ.Perm (prev st j)) (hd : DepRespecting (prev st j) σ) :
+    (elim σ (P.col j)).1 = stepW P st j ∧
+    (σ.zip (elim σ (P.col j)).2).Perm ((prev st j).zip (stepUs P st j)) ∧
+    (((P.order j).filter (fun r => !(st.piv.contains r))).map fun r => (r, (elim σ (P.col j)).1.get r))
+      = stepCands P st j ∧
+    stepSched P st j σ = step P st j := by
+  obtain ⟨h1, h2⟩ := elim_depRespecting (prev st j) σ (P.col j) h.unit hp hd
+  refine ⟨h1, h2, by rw [h1]; rfl, ?_⟩
+  apply stepSchedOf_eq_step P st j σ _ h1
+  intro k hk
+  exact multAt_schedule (fun _ => true) (prev st j) σ (P.col j) h.unit (by simpa using hp) (by simpa using hd)
+    (by simp) k hk
+
+/-- **C02 (supernodal schedule).** The same for the real shape of the update: a sequence `bs` of
+supernodes, each processed by a dense triangular solve and a matrix-vector product (`elimBlocks`),
+visiting only a subset of the previous columns (`ValidSchedule`: each visited column once,
+dependencies among the visited columns respected, every column left out has multiplier zero). -/
+theorem luFactor_supernodal_schedule (P : Params K Rat) (hP : Legal P) (st : St K) (j : Nat) (h : Inv P st j)
+    (bs : List (List (Nat × Vec K))) (hv : ValidSchedule (prev st j) (P.col j) bs) :
+    (elimBlocks bs (P.col j)).1 = stepW P st j ∧ stepBlocks P st j bs = step P st j := by
+  obtain ⟨keep, hp, hd, hz⟩ := hv
+  obtain ⟨h1, h2⟩ := elimBlocks_schedule keep (prev st j) bs (P.col j) h.unit (h.prev_range hP.col_size) hp hd hz
+  exact ⟨h1, stepSchedOf_eq_step P st j _ _ h1 h2⟩
+
+/-- **C02 (whole factorization).** A factorization that processes every column by a valid schedule
+of supernodal block updates — the schedule may be chosen per column and may depend on the factors
+computed so far — returns exactly `luFactor`: same pivots, same L, same U, same `info`. -/
+theorem luFactorBlocks_eq_luFactor (laws : MagLaws K) (P : Params K Rat) (hP : Legal P) (b : Bool)
+    (sched : St K → Nat → List (List (Nat × Vec K)))
+    (hs : ∀ j < P.n, (run P b j).info = 0 →
+      ValidSchedule (prev (run P b j) j) (P.col j) (sched (run P b j) j)) :
+    luFactorBlocks P b sched = luFactor P b := by
+  rw [luFactor_eq_run]
+  unfold luFactorBlocks
+  have key : ∀ j ≤ P.n,
+      (List.range j).foldl (fun st j => stepBlocks P st j (sched st j)) { usepr := b } = run P b j := by
+    intro j
+    induction j with
+    | zero => intro _; simp [run]
+    | succ j ih =>
+      intro hj
+      rw [List.range_succ, List.foldl_append, ih (by omega), run_succ]
+      simp only [List.foldl_cons, List.foldl_nil]
+      by_cases h0 : (run P b j).info = 0
+      · exact (luFactor_supernodal_schedule P hP _ j
+          (run_inv laws P (le_of_lt hP.u_pos) hP.u_le_one hP.col_size b j h0) _ (hs j (by omega) h0)).2
+      · rw [step_stuck P _ j h0]
+        simp [stepBlocks, stepSchedOf, h0]
+  exact key P.n (le_refl _)
+
+end Slu.LU
+
 /-! ### Non-vacuity: the hypotheses are satisfiable and the clauses are exercised -/
 namespace Slu.LU
 open Slu
@@ -230,6 +299,62 @@ example : (luFactor exP false).U.getD 0 #[] = #[4] := by decide +kernel
 example : (luFactor exP false).L.getD 0 #[] = #[1/2, 1, 1/4] := by decide +kernel
 /-- a singular matrix (two equal columns) is reported at its second column -/
 example : (luFactor { exP with col := fun j => if j = 1 then exCols 0 else exCols j } false).info = 2 := by decide +kernel
+
+/-! non-vacuity of the schedule theorems: columns 0 and 1 of this matrix are independent
+(`L_0(piv 1) = 0 = L_1(piv 0)`), so column 2 may be eliminated by column 1 first -/
+def exQCols : Nat → Vec Rat
+  | 0 => #[2, 0, 1]
+  | 1 => #[0, 3, 1]
+  | _ => #[1, 2, 5]
+
+def exQ : Params Rat Rat :=
+  { m := 3, n := 3, col := exQCols, u := 1, order := fun _ => [0, 1, 2], oldPiv := fun _ => 0, diagRow := fun j => j }
+
+theorem exQ_legal : Legal exQ :=
+  ⟨by decide, by decide, by intro j; match j with | 0 => rfl | 1 => rfl | (_ + 2) => rfl⟩
+
+theorem exQ_prev : prev (run exQ false 2) 2 = [(0, #[1, 0, 1/2]), (1, #[0, 1, 1/3])] := by decide +kernel
+
+/-- the two previous columns in swapped order -/
+def exQσ : List (Nat × Vec Rat) := [(1, #[0, 1, 1/3]), (0, #[1, 0, 1/2])]
+
+theorem exQ_inv : Inv exQ (run exQ false 2) 2 :=
+  run_inv magLaws_rat exQ (by decide) (by decide) exQ_legal.col_size false 2 (by decide +kernel)
+
+theorem exQ_dep : DepRespecting (prev (run exQ false 2) 2) exQσ := by
+  apply depRespecting_of_unitLower _ _ exQ_inv.unit
+  · simp [exQσ, UnitLower, Vec.get]
+  · rw [exQ_prev]; exact List.Perm.swap _ _ _
+
+/-- the multipliers really come out in a different order … -/
+example : (elim exQσ (exQ.col 2)).2 = [2, 1] ∧ stepUs exQ (run exQ false 2) 2 = [1, 2] := by decide +kernel
+/-- … the hypotheses of `luFactor_schedule_independent` hold for the swapped order … -/
+example := luFactor_schedule_independent exQ _ 2 exQ_inv exQσ (by rw [exQ_prev]; exact List.Perm.swap _ _ _) exQ_dep
+/-- … and the conclusion is what evaluation gives -/
+example : (stepSched exQ (run exQ false 2) 2 exQσ).U = (luFactor exQ false).U := by decide +kernel
+
+/-- column 1 does not reach column 0 (`A(0,1) = 0`, multiplier 0): the empty schedule is valid -/
+example : ValidSchedule (prev (run exQ false 1) 1) (exQ.col 1) [] :=
+  ⟨fun _ => false, by simp, by intro a b hab; simp at hab, by decide +kernel⟩
+
+/-- every column by ONE supernode holding the previous columns in REVERSE order is a valid schedule
+for this matrix, so `luFactorBlocks_eq_luFactor` applies to a schedule that is not the natural one -/
+theorem exQ_sched_valid (j : Nat) (hj : j < 3) :
+    ValidSchedule (prev (run exQ false j) j) (exQ.col j) [(prev (run exQ false j) j).reverse] := by
+  apply validSchedule_of_perm
+  · simp
+  · match j, hj with
+    | 0, _ => intro a b hab; simp [prev] at hab
+    | 1, _ =>
+      rw [show prev (run exQ false 1) 1 = [(0, #[1, 0, 1/2])] by decide +kernel]
+      intro a b hab; simp at hab
+    | 2, _ =>
+      rw [exQ_prev]
+      exact depRespecting_of_unitLower _ _ (by simp [UnitLower, Vec.get]) (by simp [UnitLower, Vec.get])
+        (by simpa using List.Perm.swap _ _ _)
+
+example : luFactorBlocks exQ false (fun st j => [(prev st j).reverse]) = luFactor exQ false :=
+  luFactorBlocks_eq_luFactor magLaws_rat exQ exQ_legal false _ (fun j hj _ => exQ_sched_valid j hj)
 
 /-- the complex magnitude `|re| + |im|` over the Gaussian rationals satisfies the laws, so every
 theorem above applies verbatim to complex data (`Field (Cx Rat)` is proved in Lemmas/CxRat.lean).
